@@ -111,6 +111,8 @@ func (t *float64Scalar) CoerceOut(v interface{}) (interface{}, error) {
 				return nil, newCoerceErr(v, "Float64")
 			}
 			v = f
+		} else {
+			v = nil
 		}
 	default:
 		v = nil
